@@ -74,7 +74,7 @@ func checkC02(c *Ctx, r *Report) {
 	if ps := newProtoSpecMode(r, p, "sm2/internal/fiat.(*SM2ScalarElement).SetBytes", false); ps != nil {
 		ps.specElemDecode("N")
 	}
-	r.Floor("protocol_paths", 20)
+	r.Floor("protocol_paths", 8)
 }
 
 func inList(s string, l []string) bool {
